@@ -54,32 +54,32 @@ type scenario struct {
 }
 
 type harness struct {
-	w   *core.World
-	r   *rig.Rig
-	sc  scenario
-	c   *refhsms.Conn
-	c2  *refhsms.Conn
-	sent     bool
+	w         *core.World
+	r         *rig.Rig
+	sc        scenario
+	c         *refhsms.Conn
+	c2        *refhsms.Conn
+	sent      bool
 	sutSelSys uint32
-	expect   []refhsms.Header // expected outbound frames (body checked separately for S9F1)
-	expectS9 map[int][10]byte // index in expect -> offending header for S9F1
+	expect    []refhsms.Header // expected outbound frames (body checked separately for S9F1)
+	expectS9  map[int][10]byte // index in expect -> offending header for S9F1
 	// optS9: expected S9F1s that the library may legitimately never write. S9F1 is a DATA message
 	// queued on the asynchronous send path; if the peer's sequence deselects the session before
 	// the writer goroutine drains the queue, the library's not-selected gate drops it (data flows
 	// only while Selected, C07). So an S9F1 followed later in the same sequence by a frame that takes the
 	// session out of Selected (Deselect.req, Separate.req, refused select) is optional (if present it
 	// must be exact and in FIFO position); otherwise it is mandatory.
-	optS9 map[int]bool
-	expDeliv []frame
-	expSel   bool
-	expEnd   bool // the sequence makes the SUT close the connection
-	endAt    int
-	secondTried bool
+	optS9                                           map[int]bool
+	expDeliv                                        []frame
+	expSel                                          bool
+	expEnd                                          bool // the sequence makes the SUT close the connection
+	endAt                                           int
+	secondTried                                     bool
 	staged, appSent, appDone, appNilNil, haveAppSys bool
-	appSys      uint32
-	appErr      error
-	secondAt time.Duration
-	sentAt   time.Duration
+	appSys                                          uint32
+	appErr                                          error
+	secondAt                                        time.Duration
+	sentAt                                          time.Duration
 }
 
 func genFrame(t *core.Tape, cfgSession uint16, i int) frame {
@@ -207,6 +207,10 @@ func genScenario(t *core.Tape, faulty bool) scenario {
 
 // Build returns the scenario builder.
 func Build(config string) core.BuildFunc {
+	if config == "linktest" {
+		return buildLinktest()
+	}
+
 	return func(w *core.World) *core.Scenario {
 		h := &harness{w: w, expectS9: map[int][10]byte{}, optS9: map[int]bool{}}
 		h.sc = genScenario(w.T, config == "faulty")
